@@ -83,7 +83,7 @@ func drawInflCall(r *Rng, token string) InflCall {
 	if op == "S" {
 		irr = irregularPlural
 	}
-	switch r.Intn(10) {
+	switch r.Intn(11) {
 	case 0, 1, 2, 3:
 		// prefix + boundary + irregular word: the prefix clause
 		w := caseVariant(r, Pick(r, irr))
@@ -111,6 +111,12 @@ func drawInflCall(r *Rng, token string) InflCall {
 		return InflCall{Op: op, Arg: token + caseVariant(r, Pick(r, regularWords))}
 	case 8:
 		return InflCall{Op: op, Arg: caseVariant(r, Pick(r, regularWords))}
+	case 9:
+		// an inflected form fed back in: asked alongside the form it derives from
+		pairs := [][2]string{{"first peoples", "first people"}, {"Gary-numan", "Gary-numen"}, {"radius", "radii"}, {"old-men", "old-man"},
+			{"status", "statuses"}, {"big oxen", "big ox"}, {"the children", "the child"}, {"menus", "menu"}, {"x-matrices", "x-matrix"}}
+		pr := Pick(r, pairs)
+		return InflCall{Op: op, Arg: pr[r.Intn(2)]}
 	default:
 		// same string in both rule types / differing only in case
 		w := Pick(r, irr)
@@ -183,7 +189,11 @@ func executeInfl(env *Env, sc *Scenario) ([]Violation, string, error) {
 		viol = append(viol, Violation{Property: "C20", Oracle: oracle, Class: class, Detail: detail, Step: hi, Facts: facts})
 	}
 
-	// the sequential reference: every distinct (op, arg) exactly once, fresh process
+	// The sequential reference. Purity means the answer for an input does not depend on what the
+	// process was asked before, so the reference is computed twice, in two fresh processes that see
+	// every distinct (op, argument) exactly once but in opposite orders; the two must agree (I3).
+	// Arguments marked Derived stand for "the result of an earlier call" (an inflected form fed back
+	// in): in the reversed pass they are asked before the calls that produce them.
 	var refCalls []inflproto.Call
 	seen := map[refKey]int{}
 	need := func(op, arg string) {
@@ -203,19 +213,34 @@ func executeInfl(env *Env, sc *Scenario) ([]Violation, string, error) {
 			}
 		}
 	}
-	rw, err := startInfl(env, env.InflBin)
+	seqRun := func(calls []inflproto.Call) (*inflproto.Resp, error) {
+		rw, err := startInfl(env, env.InflBin)
+		if err != nil {
+			return nil, err
+		}
+		defer rw.Close()
+		return inflDo(env, rw, &inflproto.Req{Mode: "seq", Calls: calls})
+	}
+	refResp, err := seqRun(refCalls)
 	if err != nil {
 		return nil, "", err
 	}
-	refResp, err := inflDo(env, rw, &inflproto.Req{Mode: "seq", Calls: refCalls})
-	rw.Close()
+	reversed := make([]inflproto.Call, len(refCalls))
+	for i, c := range refCalls {
+		reversed[len(refCalls)-1-i] = c
+	}
+	revResp, err := seqRun(reversed)
 	if err != nil {
 		return nil, "", err
 	}
 	ref := func(op, arg string) inflproto.Result { return refResp.Seq[seen[refKey{op, arg}]] }
 	for i, c := range refCalls {
-		if p := refResp.Seq[i].Panic; p != "" {
+		fwd, rev := refResp.Seq[i], revResp.Seq[len(refCalls)-1-i]
+		if p := fwd.Panic; p != "" {
 			add("I1", "panic", fmt.Sprintf("sequential %s(%q) panics: %s", c.Op, c.Raw(), firstLine(p)), -1, map[string]string{"arg": c.Raw()})
+		} else if rev.Panic == "" && fwd.Value() != rev.Value() {
+			add("I3", "result-depends-on-call-history", fmt.Sprintf("%s(%q) = %q in one fresh sequential process and %q in another that made the same calls in the opposite order",
+				c.Op, c.Raw(), fwd.Value(), rev.Value()), -1, map[string]string{"arg": c.Raw()})
 		}
 	}
 
@@ -240,7 +265,7 @@ func executeInfl(env *Env, sc *Scenario) ([]Violation, string, error) {
 		fmt.Fprintf(dig, "h%d %v %v %v\n", hi, resp.Schedule, resp.Labels, resp.Deadlock)
 		for _, cl := range resp.Results {
 			for _, r := range cl {
-				fmt.Fprintf(dig, "%q %q %d %d\n", r.Ret, r.Panic != "", r.Invoke, r.Return)
+				fmt.Fprintf(dig, "%q %v %d %d\n", r.Ret, r.Panic != "", r.Invoke, r.Return)
 			}
 		}
 		env.Stats.Add("infl-histories", 1)
